@@ -35,6 +35,51 @@ Round 3 layers (history / failure path / process order):
     A failure is re-confirmed, shrunk and stored as op `order` ({"cases": [...in execution order...]});
     `replay` runs that list and its last case alone in two fresh processes.
 
+Round 4 layers (kinds e-j of ROUND4_BRIEF.md):
+  * (i) input shapes.  The daylight-saving period is handed to the real code in every shape AnalysisPeriod takes
+    (`PFORMS`: numbers, strings, from_string text - plain, repr round trip, zero-padded, upper case with odd
+    spacing, tabs, full-width digits, plus signs -, from_dict full / sparse / reversed key order, from_start_end_
+    datetime, floats, duplicate, falsy defaults, clipped end day, other time step, keywords, int leap flag); the
+    model and the oracle always get the six stored numbers.  A period tuple carries the shape as 8th element, an
+    oracle input as 'pform'.  Every op with a period (dst, sun, riseset*, analemma, hourly, dayarc, histories:
+    init + sper, all oracle ops) draws shapes; the `dst` correspondence sweeps every fixed period x shape.
+    Setter values arrive as text ('40.72', '4.072e+01', padded), int, Fraction, Decimal (`VSHAPES`, third
+    element of a history setter op); the Sunpath itself is made by constructor / keywords / from_location /
+    strings / Decimal+Fraction / default object + setters / a re-used object of another place (`SFORMS`,
+    chosen by `_sform_of` from the numbers of the configuration, histories: init['sform']).
+  * (g) conventions between two methods: oracle op `geometry` calls day_arc3d, day_polyline2d,
+    monthly_day_arc3d, monthly_day_polyline2d, hourly_analemma_polyline3d / 2d, Sun.position_3d / 2d with
+    EVERY argument off its default (origin, radius, divisions, projection in any letter case, depression,
+    daytime_only, is_solar_time, months, steps; positional and keyword) against own projection formulas and
+    own sun positions; hour-of-year / minute-of-year / (month, day, float hour) entry points incl. fractional
+    hoy name the same minute (dst_shift).
+  * (f) aliasing: oracle op `alias` edits every returned container (dict, list, list of lists, Sun.data) in
+    place, asks a second question and a second Sunpath, and asks again.
+  * (e) sibling classes: Sunpath and Sun have no subclasses in ladybug; the sibling entry points are
+    from_location (SFORMS) and a native datetime.datetime instead of a DateTime (sun / riseset correspondence).
+    DateTime arguments are made by every DateTime constructor (`_dt`: plain, from_moy, from_hoy with a fractional
+    hour, from_date_time_string, from_array, from_date_and_time).
+  * (h) numeric edges: latitudes / longitudes / north +-1e-12 and -0.0, depressions 1e-300 .. 120 and negative,
+    int arguments, float hours one ulp off a minute / half a minute (csun), fractional hoy.
+  * (j) branches of the anchored functions, each counted under `branch:*` in the evidence:
+      is_daylight_saving_hour: no period / plain / reversed            [branch:dst_none|north|wrap|empty]
+      calculate_sun_from_date_time: leap rebuild of the datetime; native datetime (`except AttributeError`);
+        daylight-saving hour 0 (negative hour) and with solar time (sol_time < 0); four refraction ranges
+                                                                       [branch:sun_*, branch:refraction_*]
+        (ZeroDivisionError / ValueError azimuth branches belong to C05 and are exercised there)
+      calculate_sunrise_sunset_from_datetime: solar / clock noon; polar (`except ValueError`) with and
+        without daylight saving; rise-set with and without; leap rebuild; native datetime
+                                                                       [branch:riseset_*]
+      _datetime_from_day_and_hour: previous day / next day / year wrap [riseset:sunrise_previous_*, ...]
+      _calculate_hour_and_minute: minute carry (>= 60), negative       [branch:hm_*]
+      analemma_suns / hourly_analemma_suns: one step / many / bad step; daytime filter   [analemma:steps_*]
+      hourly_analemma_polyline3d: closed / open; daytime: above / below / split          [branch:hpoly_*]
+      day_arc3d: polar circle / night None / rise-set arc               [branch:dayarc_*]
+      _project_polyline_to_2d: orthographic / stereographic / refused   [oracle_geometry:*, history poly2d Mercator]
+      _days_from_010119: 2017 / 2016 fast paths; the general branch is unreachable with ladybug DateTimes and is
+        reached only by a native datetime of another year (not exercised: no independent statement about it)
+      _calculate_solar_time_by_doy: raises NotImplementedError, no caller.
+
 Producers and their consumers (each consumer is exercised by the op named in brackets):
   is_daylight_saving_hour      -> calculate_sun_from_date_time [sun, dst_shift], calculate_sun [csun, dst_shift
                                   entry points], calculate_sun_from_hoy / _from_moy [shoy, smoy, dst_shift entry
@@ -66,7 +111,9 @@ PROOF_MODULES = ['Ladybug.Props.C11']
 GREP_MODULES = ['Ladybug.Py', 'Ladybug.Transc', 'Ladybug.RealInst', 'Ladybug.Model.Cal', 'Ladybug.Model.AP',
                 'Ladybug.Model.Sun', 'Ladybug.Model.SunTimes', 'Ladybug.Model.SunpathObj', 'Ladybug.Gen.DtTables', 'Ladybug.Gen.ApTables',
                 'Ladybug.Proofs.CalLemmas', 'Ladybug.Props.C08', 'Ladybug.Proofs.C05Real',
-                'Ladybug.Proofs.C05Lemmas', 'Ladybug.Proofs.C11Lemmas', 'Ladybug.Proofs.C11Obj', 'Ladybug.Drv.C11', 'Ladybug.DrvCore']
+                'Ladybug.Proofs.C05Lemmas', 'Ladybug.Proofs.C11Lemmas', 'Ladybug.Proofs.C11Obj', 'Ladybug.Drv.C11', 'Ladybug.DrvCore',
+                'Ladybug.Proofs.C11Forms', 'Ladybug.Props.C04', 'Ladybug.Proofs.C04Lemmas', 'Ladybug.Proofs.C04Listings',
+                'Ladybug.Proofs.C04Order', 'Ladybug.Proofs.C04Obj', 'Ladybug.Model.APObj']
 RULE = ('correspondence: Float instance of the model vs the real methods at the public API: '
         'is_daylight_saving_hour (every hour of the year + the minutes around the period ends, northern / '
         'year-wrapping / empty periods, both leap flags), calculate_sun_from_date_time with a daylight-saving '
@@ -90,14 +137,21 @@ RULE = ('correspondence: Float instance of the model vs the real methods at the 
         'ways, period of the other calendar, None period) compared step by step with SunpathObj.run (model) and '
         'with a fresh object of the established public state plus the independent oracles on the used object '
         '(oracle op history); a slice of the oracle stream re-run in 3-4 fresh processes in different orders '
-        '(op order).')
+        '(op order).  Round 4: the daylight-saving period in every shape AnalysisPeriod accepts (numbers, strings, '
+        'from_string text in eight spellings, dictionaries, start/end date-times, floats, copies, falsy defaults, '
+        'clipped end day, other time step) with the model fed the six stored numbers; setter values as text / int / '
+        'Fraction / Decimal; the Sunpath made by constructor, keywords, from_location, strings, setters on a default '
+        'or re-used object; native datetime arguments; geometry consumers with every argument off its default '
+        'against own projection formulas (op geometry); results edited in place, second object (op alias); '
+        'branches of the anchored functions counted under branch:*.')
 TRUSTED_BASE = [
     'modelled, not verified: CPython float arithmetic and libm = Lean Float primitives on this machine (the '
     'model is compared with the code on every generated case; the rounded minute of sunrise/sunset is compared '
     'exactly)',
     'modelled, not verified: ladybug_geometry Arc3D.from_start_mid_end (observed through p1, p2, c, radius, '
-    'plane normal only) and Sun.position_3d; Compass projections of the 2D variants (day_polyline2d, '
-    'hourly_analemma_polyline2d/3d, monthly_day_polyline2d) are NOT covered',
+    'plane normal only), Arc3D.to_polyline and Polyline3D.split_with_plane; the 2D variants (day_polyline2d, '
+    'hourly_analemma_polyline2d/3d, monthly_day_polyline2d) are not modelled: the oracle op geometry compares them '
+    'with own projection formulas applied to the 3-D results',
     'AnalysisPeriod truth value: `not self.daylight_saving_period` is modelled as `is None` (a period always '
     'has at least one time step); compared on every dst case',
     'IEEE evaluation vs real evaluation of the NOAA series is not proved; the altitude / noon / polar / '
@@ -126,8 +180,10 @@ LEVEL_TEXT = ('proof (Lean 4) of the integer/branch logic and closed-form real-a
               'times incl. year ends and leap years, analemma date lists; object state machine: reads are pure '
               'and commute, refused operations preserve the state, every history refines the fresh object of its '
               'final public attributes; model tied to the code by correspondence (single calls and histories on '
-              'one object); altitude-at-sunrise, noon-is-maximum sampled')
-LEVEL_NOTE = 'partial by nature (numeric): sampled sub-claims are tests; 2D projections not covered'
+              'one object); the wrap test is the lexicographic order of the numbers (not of their text), the '
+              'period may arrive as copy / dictionary / start-end / text tokens / with any time step, an object made '
+              'by setters equals the constructed one; altitude-at-sunrise, noon-is-maximum sampled')
+LEVEL_NOTE = 'partial by nature (numeric): sampled sub-claims are tests; 2D projections are checked by the oracle only (not modelled)'
 TECHNIQUE = 'Lean 4 proof over an executable model + differential correspondence'
 
 TOL = 1e-9
@@ -188,30 +244,173 @@ def _per_toks(p):
 
 _PERIOD_CACHE = {}
 
+# Round 4 (kind i, input shapes): the SAME stored daylight-saving period (six numbers + leap flag) is handed to
+# the real code in every shape AnalysisPeriod accepts; the model always gets the six numbers.  A period tuple may
+# carry the shape as an 8th element: p = (stM, stD, stH, endM, endD, endH, leap[, form]).
+PFORMS = ('num', 'str', 'text', 'repr', 'padded', 'shout', 'tabs', 'unicode', 'plus', 'dict', 'dict_sparse',
+          'dict_reversed', 'dts', 'float', 'dup', 'falsy', 'clip', 'ts', 'kw', 'int_leap', 'str_repr_dup')
+_FULLWIDTH = dict((ord(str(d)), 0xFF10 + d) for d in range(10))
+
+
+def _period_text(p, fmt='%d/%d to %d/%d between %d and %d @1'):
+    return fmt % (p[0], p[1], p[3], p[4], p[2], p[5]) + ('*' if p[6] else '')
+
+
+def _build_period(p, form='num'):
+    """The AnalysisPeriod with stored fields p[:6] and leap flag p[6], built in the shape `form` (stdlib
+    formatting only; every shape is documented or accepted input of AnalysisPeriod)."""
+    import contextlib
+    import io
+    from ladybug.analysisperiod import AnalysisPeriod
+    from ladybug.dt import DateTime
+    sm, sd, sh, em, ed, eh = [int(x) for x in p[:6]]
+    leap = bool(p[6])
+    q = (sm, sd, sh, em, ed, eh, leap)
+    if form == 'str':
+        return AnalysisPeriod(str(sm), str(sd), str(sh), str(em), str(ed), str(eh), 1, leap)
+    if form == 'text':
+        return AnalysisPeriod.from_string(_period_text(q))
+    if form == 'repr':
+        return AnalysisPeriod.from_string(repr(AnalysisPeriod(sm, sd, sh, em, ed, eh, 1, leap)))
+    if form == 'str_repr_dup':
+        return AnalysisPeriod.from_string(str(AnalysisPeriod.from_string(_period_text(q)).duplicate()))
+    if form == 'padded':
+        return AnalysisPeriod.from_string(_period_text(q, '%02d/%02d to %02d/%02d between %02d and %02d @1'))
+    if form == 'shout':
+        return AnalysisPeriod.from_string('  ' + _period_text(q, '%d / %d  TO %d / %d BETWEEN  %d AND %d @ 1 ')
+                                          .replace('*', ' * ') + '  ')
+    if form == 'tabs':
+        return AnalysisPeriod.from_string(_period_text(q, '%d/%d\tto\t%d/%d between %d\tand %d @1'))
+    if form == 'unicode':
+        t = _period_text(q)
+        return AnalysisPeriod.from_string(t[:t.index('@')].translate(_FULLWIDTH) + t[t.index('@'):])
+    if form == 'plus':
+        return AnalysisPeriod.from_string(_period_text(q, '+%d/+%d to +%d/+%d between +%d and +%d @1'))
+    if form in ('dict', 'dict_sparse', 'dict_reversed'):
+        items = [('st_month', sm), ('st_day', sd), ('st_hour', sh), ('end_month', em), ('end_day', ed),
+                 ('end_hour', eh), ('timestep', 1), ('is_leap_year', leap)]
+        if form == 'dict_sparse':
+            dflt = {'st_month': 1, 'st_day': 1, 'st_hour': 0, 'end_month': 12, 'end_day': 31, 'end_hour': 23,
+                    'timestep': 1, 'is_leap_year': False}
+            items = [(k, v) for k, v in items if dflt[k] != v]
+        if form == 'dict_reversed':
+            items = list(reversed(items)) + [('type', 'AnalysisPeriod')]
+        return AnalysisPeriod.from_dict(dict(items))
+    if form == 'dts':
+        return AnalysisPeriod.from_start_end_datetime(DateTime(sm, sd, sh, 0, leap), DateTime(em, ed, eh, 0, leap), 1)
+    if form == 'float':
+        return AnalysisPeriod(float(sm), float(sd), float(sh), float(em), float(ed), float(eh), 1, leap)
+    if form == 'dup':
+        return AnalysisPeriod(sm, sd, sh, em, ed, eh, 1, leap).duplicate()
+    if form == 'falsy':     # `x or default`: None and 0 stand for the defaults 1/1 0h .. 12/31 23h
+        return AnalysisPeriod(0 if sm == 1 else sm, None if sd == 1 else sd, None if sh == 0 else sh,
+                              None if em == 12 else em, 0 if ed == 31 else ed, None if eh == 23 else eh,
+                              None, leap or None)
+    if form == 'clip':      # an end day past the end of the month is clipped to the last day (prints a note)
+        last = MDAYS[em - 1] + (1 if (leap and em == 2) else 0)
+        if ed == last and ed < 31:
+            with contextlib.redirect_stdout(io.StringIO()):
+                return AnalysisPeriod(sm, sd, sh, em, 31, eh, 1, leap)
+    if form == 'ts':        # the time step of the period plays no role for daylight saving
+        return AnalysisPeriod(sm, sd, sh, em, ed, eh, 2 if (sh, eh) != (0, 23) else 60, leap)
+    if form == 'kw':
+        return AnalysisPeriod(is_leap_year=leap, end_hour=eh, end_day=ed, end_month=em, st_hour=sh, st_day=sd,
+                              st_month=sm)
+    if form == 'int_leap':
+        return AnalysisPeriod(sm, sd, sh, em, ed, eh, 1, 1 if leap else 0)
+    return AnalysisPeriod(sm, sd, sh, em, ed, eh, 1, leap)
+
 
 def _period(p):
     """The AnalysisPeriod objects are cached: the truth value of a period (`not period` in
     is_daylight_saving_hour) enumerates all its time steps once per object (~20 ms)."""
-    from ladybug.analysisperiod import AnalysisPeriod
     if p is None:
         return None
     p = tuple(p)
     if p not in _PERIOD_CACHE:
-        if len(_PERIOD_CACHE) > 400:
+        if len(_PERIOD_CACHE) > 1500:
             _PERIOD_CACHE.clear()
-        _PERIOD_CACHE[p] = AnalysisPeriod(p[0], p[1], p[2], p[3], p[4], p[5], 1, bool(p[6]))
+        _PERIOD_CACHE[p] = _build_period(p, p[7] if len(p) > 7 else 'num')
     return _PERIOD_CACHE[p]
 
 
-def _sunpath(c, p=None):
+# Round 4 (kinds e, i): the same Sunpath through every way of making one.
+SFORMS = ('ctor', 'kw', 'location', 'str', 'setters', 'reuse', 'dec', 'ctor', 'ctor')
+
+
+def _sform_of(c):
+    """The way the Sunpath of configuration c is made: a fixed function of its numbers (so that a replay
+    makes it the same way)."""
+    k = int(abs(c[0]) * 1000003 + abs(c[1]) * 10007) % len(SFORMS)
+    return SFORMS[k]
+
+
+def _make_sunpath(lat, lon, tz, north, period, form='ctor'):
     from ladybug.sunpath import Sunpath
-    sp = Sunpath(c[0], c[1], c[2], c[3], _period(p))
+    if form == 'kw':
+        return Sunpath(daylight_saving_period=period, north_angle=north, time_zone=tz, longitude=lon, latitude=lat)
+    if form == 'location' and tz is not None:
+        from ladybug.location import Location
+        return Sunpath.from_location(Location(latitude=lat, longitude=lon, time_zone=tz), north, period)
+    if form == 'str':
+        return Sunpath(repr(float(lat)), ' %r ' % float(lon), None if tz is None else '%.17e' % tz,
+                       repr(float(north)) + '\n', period)
+    if form == 'dec':
+        from decimal import Decimal
+        from fractions import Fraction
+        return Sunpath(Decimal(repr(float(lat))), Fraction(float(lon)), None if tz is None else Fraction(float(tz)),
+                       Decimal(repr(float(north))), period)
+    if form in ('setters', 'reuse'):
+        sp = Sunpath() if form == 'setters' else Sunpath(-lat / 2.0, -lon / 2.0, None, 45.0, _period((6, 1, 5, 9, 1, 4, False)))
+        if form == 'reuse':
+            sp.is_leap_year = True
+        sp.daylight_saving_period = period
+        sp.north_angle = north
+        sp.longitude = lon          # before the zone: `time_zone = None` is resolved with the longitude
+        sp.time_zone = tz
+        sp.latitude = lat
+        sp.is_leap_year = False
+        return sp
+    return Sunpath(lat, lon, tz, north, period)
+
+
+def _sunpath(c, p=None, sform=None):
+    sp = _make_sunpath(c[0], c[1], c[2], c[3], _period(p), sform or _sform_of(c))
     sp.is_leap_year = c[4]
     return sp
 
 
 def _show_dt(d):
-    return '%d/%d/%d/%d/%s' % (d.month, d.day, d.hour, d.minute, _b(d.leap_year))
+    # (a native datetime.datetime has no leap_year attribute: year 2016 is the leap reference year)
+    return '%d/%d/%d/%d/%s' % (d.month, d.day, d.hour, d.minute, _b(getattr(d, 'leap_year', d.year == 2016)))
+
+
+def _dt(month, day, hour, minute, leap):
+    """The ladybug DateTime of a moment through one of its constructors (kind i: the helper class in its rarer
+    forms); which one is a fixed function of the numbers.  Dates that do not exist go to the plain constructor."""
+    from ladybug.dt import DateTime, Date, Time
+    k = (month * 7 + day * 3 + hour + minute) % 7
+    try:
+        moy = _moy_of(leap, month, day, hour, minute)
+    except (ValueError, TypeError):
+        return DateTime(month, day, hour, minute, leap)
+    if k == 1:
+        return DateTime.from_moy(moy, leap)
+    if k == 2:
+        return DateTime.from_hoy(moy / 60.0, leap)
+    if k == 3:
+        return DateTime.from_date_time_string(_ref(leap, moy).strftime('%d %b %H:%M'), leap)
+    if k == 4:
+        return DateTime.from_array(x for x in (month, day, hour, minute, leap))     # a one-shot iterable
+    if k == 5:
+        return DateTime.from_date_and_time(Date(month, day, leap), Time(hour, minute))
+    return DateTime(month, day, hour, minute, leap)
+
+
+def _native(month, day, hour, minute, leap):
+    """The same moment as a datetime.datetime of the standard library (what the `except AttributeError` branch of
+    calculate_sun_from_date_time is for)."""
+    return datetime(2016 if leap else 2017, month, day, hour, minute)
 
 
 def _show_odt(d):
@@ -277,9 +476,9 @@ def _compare(ctx, op, cases, model_line, impl_fn):
 # ---------------------------------------------------------------------------------------------
 # generators (stdlib only)
 
-LATS = [-90.0, -89.999, -78.0, -66.5622, -65.63, -45.0, -23.4378, 0.0, 1e-7, 23.4378, 40.72, 59.9, 65.63, 66.5622,
+LATS = [-90.0, -89.999, -78.0, -66.5622, -65.63, -45.0, -23.4378, -1e-12, -0.0, 0.0, 1e-12, 1e-7, 23.4378, 40.72, 59.9, 65.63, 66.5622,
         67.5, 71.0, 89.999, 90.0]
-LONS = [-180.0, -179.99, -122.4, -74.02, -16.12, -7.5, 0.0, 7.4999, 77.2, 151.22, 179.99, 180.0]
+LONS = [-180.0, -179.99, -122.4, -74.02, -16.12, -7.5, -1e-12, -0.0, 0.0, 7.4999, 77.2, 151.22, 179.99, 180.0]
 DEPS = [0.0, 0.5334, 0.833, 0.8333, 6.0, 12.0, 18.0]
 MDAYS = [31, 28, 31, 30, 31, 30, 31, 31, 30, 31, 30, 31]
 # daylight-saving periods as stored (stM, stD, stH, endM, endD, endH): northern, southern (wrapping), odd
@@ -304,7 +503,20 @@ def _rand_period(rng, leap):
         p = (sm, rng.randrange(1, MDAYS[sm - 1] + 1), rng.randrange(24), em, rng.randrange(1, MDAYS[em - 1] + 1),
              rng.randrange(24))
         _POOL[id(rng)].append(p)
-    return p + (leap,)
+    return p + (leap, _form_for(rng, p, leap))
+
+
+_FORMS = {}
+
+
+def _form_for(rng, p, leap):
+    """The shape in which a period is handed to the real code: per run every (period, leap) has 'num' and three
+    seeded shapes (each distinct period object costs one enumeration of its time steps, see `_period`)."""
+    pool = _FORMS.setdefault(id(rng), {})
+    key = (tuple(p[:6]), bool(leap))
+    if key not in pool:
+        pool[key] = ['num'] + [rng.choice(PFORMS) for _ in range(3)]
+    return rng.choice(pool[key])
 
 
 def _near_tz(rng, lon, spread=2.0):
@@ -328,7 +540,7 @@ def _rand_cfg(rng, near=True):
         tz = _near_tz(rng, lon)
     else:
         tz = rng.uniform(-12.0, 14.0)
-    north = rng.choice([0.0, 0.0, 0.0, 90.0, -45.5, 360.0])
+    north = rng.choice([0.0, 0.0, 0.0, 90.0, -45.5, 360.0, -0.0, 1e-12, -359.99999999])
     return (lat, lon, tz, north, rng.random() < 0.4)
 
 
@@ -425,6 +637,7 @@ def correspondence(ctx):
         leap = p[6]
         kind = 'wrap' if (p[0], p[1], p[2]) > (p[3], p[4], p[5]) else 'empty' if (p[0], p[1], p[2]) == (p[3], p[4], p[5]) else 'north'
         ctx.count('dst_period:' + kind)
+        ctx.count('branch:dst_' + kind)
         hours = range(0, _ymin(leap), 60)
         if ctx.quick:
             hours = list(range(0, _ymin(leap), 60 * 7)) + [rng.randrange(_ymin(leap)) for _ in range(300)]
@@ -437,13 +650,29 @@ def correspondence(ctx):
             r = _ref(dl, rng.randrange(_ymin(dl)))
             cases.append((p, dl, r.month, r.day, r.hour, r.minute))
     cases.append((None, False, 6, 21, 12, 0))
+    ctx.count('branch:dst_none')
+    # round 4: every fixed period in every shape AnalysisPeriod accepts (text, strings, dictionary, ...): the
+    # model gets the six numbers, the real code the shape; times = the ends of the period +- and random ones
+    for pp in PERIODS:
+        forms = rng.sample(PFORMS[1:], 6) if ctx.quick else PFORMS[1:]
+        for form in forms:
+            leap = rng.random() < 0.4
+            if leap and (pp[0], pp[1]) == (2, 28) and form == 'clip':
+                pass
+            p = pp + (leap, form)
+            ctx.count('dst_form:' + form)
+            ctx.count('branch:dst_' + _kind(pp))
+            n = _ymin(leap)
+            for m in _dst_boundary_moys(pp, leap) + [rng.randrange(n) for _ in range(25)]:
+                r = _ref(leap, m)
+                cases.append((p, leap, r.month, r.day, r.hour, r.minute))
     sp_cache = {}
 
     def impl_dst(c):
         key = c[0]
         if key not in sp_cache:
             sp_cache[key] = _sunpath((0.0, 0.0, 0.0, 0.0, False), c[0])
-        return 'ok ' + _b(sp_cache[key].is_daylight_saving_hour(DateTime(c[2], c[3], c[4], c[5], c[1])))
+        return 'ok ' + _b(sp_cache[key].is_daylight_saving_hour(_dt(c[2], c[3], c[4], c[5], c[1])))
 
     _compare(ctx, 'dst', cases,
              lambda c: 'dst %s %s %d %d %d %d' % (_per_toks(c[0]), _b(c[1]), c[2], c[3], c[4], c[5]), impl_dst)
@@ -456,6 +685,10 @@ def correspondence(ctx):
         cases.append(rng.uniform(-30.0, 54.0))
     cases += [-0.0, -1.0, -1e-12, -0.5 / 60, -0.49 / 60, -0.51 / 60, 24.0, 23.0 + 59.5 / 60, 23.0 + 59.49 / 60, -23.999,
               float('inf'), float('nan')]
+    for x in cases:
+        if x == x and abs(x) < 1e9:
+            ctx.count('branch:hm_%s%s' % ('negative' if x < 0 else 'positive',
+                                          '_minute_carry' if int(round((x - int(x)) * 60)) >= 60 else ''))
     _compare(ctx, 'hmq', cases, lambda c: 'hmq ' + _fbits(c),
              lambda c: 'ok %d %d' % Sunpath._calculate_hour_and_minute(c))
 
@@ -474,13 +707,23 @@ def correspondence(ctx):
             m = rng.randrange(_ymin(dl))
         t = _ref(dl, m)
         solar = rng.random() < 0.25
-        cases.append((c, p, solar, dl, t.month, t.day, t.hour, t.minute))
+        native = p is None and rng.random() < 0.5
+        cases.append((c, p, solar, dl, t.month, t.day, t.hour, t.minute, native))
         ctx.count('sun:' + ('no_period' if p is None else 'period'))
         ctx.count('sun:hour0' if t.hour == 0 else 'sun:hour>0')
+        if native:
+            ctx.count('branch:sun_native_datetime')
+        if c[4] and not dl:
+            ctx.count('branch:sun_leap_rebuild')
 
     def impl_sun(c):
-        s = _sunpath(c[0], c[1]).calculate_sun_from_date_time(DateTime(c[4], c[5], c[6], c[7], c[3]), c[2])
+        d = _native(c[4], c[5], c[6], c[7], c[3]) if c[8] else _dt(c[4], c[5], c[6], c[7], c[3])
+        s = _sunpath(c[0], c[1]).calculate_sun_from_date_time(d, c[2])
         ctx.count('sun:flagged' if s.is_daylight_saving else 'sun:unflagged')
+        if s.is_daylight_saving and c[6] == 0:
+            ctx.count('branch:sun_dst_hour0' + ('_solar_negative_time' if c[2] else ''))
+        a = s.altitude
+        ctx.count('branch:refraction_' + ('>85' if a > 85 else '>5' if a > 5 else '>-0.575' if a > -0.575 else 'below'))
         return 'ok ' + _show_sun(s)
 
     _compare(ctx, 'sun', cases,
@@ -493,6 +736,9 @@ def correspondence(ctx):
         c = _rand_cfg(rng, near=rng.random() < 0.9)
         p = _rand_period(rng, c[4]) if rng.random() < 0.4 else None
         dep = rng.choice(DEPS) if rng.random() < 0.8 else rng.uniform(0.0, 18.0)
+        if rng.random() < 0.05:      # depressions far outside the twilight range, tiny ones, integers (kind h)
+            dep = rng.choice([1e-12, 1e-300, 0, 6, 18, 45.0, 89.9, 90.0, 120.0, -0.5, -6.0, 18.000000000000004])
+            ctx.count('riseset:depression_edge')
         md = _rand_day(rng, c[4])
         cases.append((c, p, rng.random() < 0.15, dep, md))
     for c0 in ((10.0, 20.0, 1.0, 0.0, False), (10.0, 20.0, 1.0, 0.0, True)):
@@ -503,6 +749,9 @@ def correspondence(ctx):
     def impl_rsmd(c):
         r = _sunpath(c[0], c[1]).calculate_sunrise_sunset(c[4][0], c[4][1], c[3], c[2])
         ctx.count('riseset:' + ('polar' if r['sunrise'] is None else 'rise_set'))
+        ctx.count('branch:riseset_%s_%s%s' % ('polar' if r['sunrise'] is None else 'rise_set',
+                                              'dst' if (c[1] is not None and _in_window(c[1], c[0][4], _moy_of(c[0][4], c[4][0], c[4][1], 12))) else 'std',
+                                              '_solar' if c[2] else ''))
         if r['sunrise'] is not None:
             if (r['sunrise'].month, r['sunrise'].day) != tuple(c[4]):
                 ctx.count('riseset:sunrise_previous_day')
@@ -529,11 +778,16 @@ def correspondence(ctx):
         else:
             m = rng.randrange(_ymin(dl))
         t = _ref(dl, m)
-        cases.append((c, p, rng.random() < 0.15, dep, dl, t.month, t.day, t.hour, t.minute))
+        native = p is None and rng.random() < 0.4
+        if native:
+            ctx.count('branch:riseset_native_datetime')
+        if c[4] and not dl:
+            ctx.count('branch:riseset_leap_rebuild')
+        cases.append((c, p, rng.random() < 0.15, dep, dl, t.month, t.day, t.hour, t.minute, native))
 
     def impl_rs(c):
-        r = _sunpath(c[0], c[1]).calculate_sunrise_sunset_from_datetime(
-            DateTime(c[5], c[6], c[7], c[8], c[4]), c[3], c[2])
+        d = _native(c[5], c[6], c[7], c[8], c[4]) if c[9] else _dt(c[5], c[6], c[7], c[8], c[4])
+        r = _sunpath(c[0], c[1]).calculate_sunrise_sunset_from_datetime(d, c[3], c[2])
         return _show_rs(r)
 
     _compare(ctx, 'riseset', cases,
@@ -787,7 +1041,7 @@ def _cfg_of(inp):
 
 def _per_of(inp):
     p = inp.get('period')
-    return None if p is None else tuple(p[:6]) + (bool(inp.get('leap')),)
+    return None if p is None else tuple(p[:6]) + (bool(inp.get('leap')), inp.get('pform', 'num'))
 
 
 def _check_dst_window(inp, sp=None):
@@ -799,7 +1053,7 @@ def _check_dst_window(inp, sp=None):
     bad = []
     for moy in inp['moys']:
         r = _ref(leap, moy)
-        got = bool(sp.is_daylight_saving_hour(DateTime(r.month, r.day, r.hour, r.minute, leap)))
+        got = bool(sp.is_daylight_saving_hour(_dt(r.month, r.day, r.hour, r.minute, leap)))
         want = _in_window(p, leap, moy)
         if got != want:
             bad.append((moy, r.strftime('%d %b %H:%M'), want, got))
@@ -827,7 +1081,7 @@ def _check_dst_shift(inp, sp=None):
     sp, sp0 = sp or _sunpath(c, p), _sunpath(c, None)
     for moy in inp['moys']:
         r = _ref(leap, moy)
-        s = sp.calculate_sun_from_date_time(DateTime(r.month, r.day, r.hour, r.minute, leap), solar)
+        s = sp.calculate_sun_from_date_time(_dt(r.month, r.day, r.hour, r.minute, leap), solar)
         inside = _in_window(p, leap, moy)
         sig = {'period': _kind(p), 'inside': inside, 'solar': solar}
         when = r.strftime('%d %b %H:%M')
@@ -835,6 +1089,8 @@ def _check_dst_shift(inp, sp=None):
                   ('calculate_sun', lambda: sp.calculate_sun(r.month, r.day, r.hour + r.minute / 60.0, solar))]
         if r.minute == 0:
             others.append(('calculate_sun_from_hoy', lambda: sp.calculate_sun_from_hoy(moy // 60, solar)))
+        # a fractional hour of the year names its minute (float product, then rounding: kind h)
+        others.append(('calculate_sun_from_hoy(float)', lambda: sp.calculate_sun_from_hoy(moy / 60.0, solar)))
         for name, fn in others:
             try:
                 t = _sun_tuple(fn())
@@ -844,6 +1100,16 @@ def _check_dst_shift(inp, sp=None):
                 return {'required': '%s: %s names the same clock time as calculate_sun_from_date_time: %r'
                         % (when, name, _sun_tuple(s)), 'observed': t,
                         'sig': dict(sig, what='entry-points-differ', entry=name)}
+        # a datetime.datetime of the standard library names the same moment (Sunpath without a period: the
+        # daylight-saving test needs the minute of the year, which only a ladybug DateTime has)
+        try:
+            sn = _sun_tuple(sp0.calculate_sun_from_date_time(_native(r.month, r.day, r.hour, r.minute, leap), solar))[4:]
+        except Exception as e:
+            sn = 'raises %s' % type(e).__name__
+        sd = _sun_tuple(sp0.calculate_sun_from_date_time(_dt(r.month, r.day, r.hour, r.minute, leap), solar))[4:]
+        if sn != sd:
+            return {'required': '%s: a native datetime gives the sun of the DateTime of the same moment %r' % (when, sd),
+                    'observed': sn, 'sig': dict(sig, what='native-datetime')}
         if bool(s.is_daylight_saving) != inside:
             return {'required': '%s: is_daylight_saving = %s' % (when, inside),
                     'observed': s.is_daylight_saving, 'sig': dict(sig, what='flag')}
@@ -1009,6 +1275,15 @@ def _check_riseset_dt(inp, sp=None):
                                                   bool(inp.get('solar')))
     if a != b:
         return {'required': str(a), 'observed': str(b), 'sig': {'what': 'from_datetime-differs'}}
+    if p is None:
+        for hm in ((0, 0), (12, 0), (23, 59)):
+            b = sp.calculate_sunrise_sunset_from_datetime(_native(inp['month'], inp['day'], hm[0], hm[1], c[4]), inp['dep'],
+                                                          bool(inp.get('solar')))
+            d = sp.calculate_sunrise_sunset_from_datetime(_dt(inp['month'], inp['day'], hm[0], hm[1], c[4]), inp['dep'],
+                                                          bool(inp.get('solar')))
+            if b != d:
+                return {'required': 'a native datetime names the day like a DateTime: %s' % d, 'observed': str(b),
+                        'sig': {'what': 'native-datetime'}}
     return None
 
 
@@ -1107,6 +1382,277 @@ def _check_dayarc(inp, sp=None):
 
 
 # ---------------------------------------------------------------------------------------------
+# round 4 (kind g): the geometry consumers with EVERY argument off its default, against an oracle that does not
+# share their code path (own projection formulas, own sun positions from sun_vector_reversed)
+
+
+def _proj(pt, projection, radius, o):
+    """Orthographic / stereographic projection of a 3-D point about the origin o = (ox, oy, oz) (textbook)."""
+    x, y, z = pt
+    if projection.lower() == 'orthographic':
+        return (x, y)
+    k = radius / (radius + (z - o[2]))
+    return ((x - o[0]) * k + o[0], (y - o[1]) * k + o[1])
+
+
+def _pos(sun, o, radius):
+    r = sun.sun_vector_reversed
+    return (r.x * radius + o[0], r.y * radius + o[1], r.z * radius + o[2])
+
+
+def _close(a, b, tol):
+    return len(a) == len(b) and all(abs(x - y) <= tol for x, y in zip(a, b))
+
+
+def _v3(pl):
+    return [(v.x, v.y, v.z) for v in pl.vertices]
+
+
+def _v2(pl):
+    return [(v.x, v.y) for v in pl.vertices]
+
+
+def _check_geometry(inp, sp=None):
+    """See `_check_geometry_body`; two limits of the geometry library are not judged (three coincident / colinear
+    suns cannot define an arc, a polyline needs three vertices)."""
+    try:
+        return _check_geometry_body(inp, sp)
+    except (ValueError, AssertionError) as e:
+        if 'colinear' in str(e) or 'at least 3 vertices' in str(e):
+            _COUNT('geometry:library_limit')
+            return None
+        return {'required': 'the geometry of %d/%d' % (inp['month'], inp['day']),
+                'observed': 'raises %s: %s' % (type(e).__name__, str(e)[:120]),
+                'sig': {'what': 'geometry-exception', 'exception': type(e).__name__}}
+
+
+def _check_geometry_body(inp, sp=None):
+    """day_arc3d / day_polyline2d / monthly_day_arc3d / monthly_day_polyline2d / hourly_analemma_polyline3d /
+    hourly_analemma_polyline2d / Sun.position_3d / position_2d with origin, radius, divisions, depression,
+    daytime_only, is_solar_time, months and steps all chosen by the caller: every one of them shows the suns the
+    position calculation gives, scaled by the radius about the origin, projected as requested."""
+    from ladybug_geometry.geometry3d.pointvector import Point3D
+    from ladybug_geometry.geometry2d.pointvector import Point2D
+    c, p = _cfg_of(inp), _per_of(inp)
+    sp = sp or _sunpath(c, p)
+    o3 = tuple(inp['origin'])
+    o2 = (o3[0], o3[1], 0.0)            # the 2-D methods work in the plane z = 0
+    radius, div, dep = inp['radius'], inp['divisions'], inp['dep']
+    proj, dto, solar = inp['projection'], bool(inp['daytime_only']), bool(inp.get('solar'))
+    month, day = inp['month'], inp['day']
+    sm, em, steps = inp['start'], inp['end'], inp['steps']
+    tol = 1e-7 * max(1.0, radius)
+    sig = {'projection': proj.lower(), 'daytime_only': dto, 'solar': solar}
+    P3, P2 = Point3D(*o3), Point2D(o3[0], o3[1])
+    # -- one day: the arc about the origin goes through the suns of the reported times
+    r = sp.calculate_sunrise_sunset(month, day, dep)
+    arc = sp.day_arc3d(month, day, P3, radius, dto, dep)
+    arck = sp.day_arc3d(month=month, day=day, depression=dep, daytime_only=dto, radius=radius, origin=P3)
+    if _arc_digest(arc) != _arc_digest(arck):
+        return {'required': 'day_arc3d: the same arc for positional and keyword arguments', 'observed': 'differ',
+                'sig': dict(sig, what='arc-args')}
+    noon = sp.calculate_sun_from_date_time(r['noon'])
+    polar = r['sunrise'] is None
+    _COUNT('branch:dayarc_' + ('polar' if polar else 'rise_set'))
+    if polar and dto and noon.altitude < 0:
+        _COUNT('branch:dayarc_night_none')
+        if arc is not None:
+            return {'required': 'no arc (the sun stays below the horizon)', 'observed': 'an arc', 'sig': dict(sig, what='night-arc')}
+    else:
+        if polar:
+            suns = [sp.calculate_sun(month, day, 6), noon, sp.calculate_sun(month, day, 18)]
+        else:
+            suns = [sp.calculate_sun_from_date_time(r['sunrise']), noon, sp.calculate_sun_from_date_time(r['sunset'])]
+        why = _arc_vs_points(arc, 'polar' if polar else 'arc', [_pos(x, o3, radius) for x in suns], radius)
+        if why:
+            return {'required': 'the day arc of %d/%d (depression %r) about %r with radius %r through the suns of %s'
+                    % (month, day, dep, o3, radius, [str(x.datetime) for x in suns]), 'observed': why,
+                    'sig': dict(sig, what='arc', polar=polar)}
+        for x in suns:          # Sun.position_3d / position_2d are the producers of every vertex
+            q = x.position_3d(P3, radius)
+            if not _close((q.x, q.y, q.z), _pos(x, o3, radius), tol):
+                return {'required': 'position_3d = origin + radius * sun_vector_reversed = %r' % (_pos(x, o3, radius),),
+                        'observed': (q.x, q.y, q.z), 'sig': dict(sig, what='position_3d')}
+            q = x.position_2d(proj, P2, radius)
+            want = _proj(_pos(x, o2, radius), proj, radius, o2)
+            if not _close((q.x, q.y), want, tol):
+                return {'required': 'position_2d (%s) = %r' % (proj, want), 'observed': (q.x, q.y),
+                        'sig': dict(sig, what='position_2d')}
+    pl = sp.day_polyline2d(month, day, proj, P2, radius, dto, dep, div)
+    arc0 = sp.day_arc3d(month, day, Point3D(*o2), radius, dto, dep)
+    if (pl is None) != (arc0 is None):
+        return {'required': 'day_polyline2d is None exactly when the day arc is', 'observed': repr(pl),
+                'sig': dict(sig, what='polyline2d-none')}
+    if pl is not None:
+        want = [_proj(v, proj, radius, o2) for v in _v3(arc0.to_polyline(div, interpolated=True))]
+        got = _v2(pl)
+        if len(got) != len(want) or any(not _close(a, b, tol) for a, b in zip(got, want)):
+            return {'required': 'day_polyline2d %d/%d: the %s projection of the day arc (depression %r, daytime_only %r, '
+                    'radius %r) in %d divisions: %r ...' % (month, day, proj, dep, dto, radius, div, want[:2]),
+                    'observed': '%d vertices %r ...' % (len(got), got[:2]), 'sig': dict(sig, what='polyline2d')}
+    # -- the 21st of every month
+    arcs = sp.monthly_day_arc3d(P3, radius, dto, dep)
+    want = [a for a in (sp.day_arc3d(m, 21, P3, radius, dto, dep) for m in range(1, 13)) if a is not None]
+    if [_arc_digest(a) for a in arcs] != [_arc_digest(a) for a in want]:
+        return {'required': 'monthly_day_arc3d = the day arcs of the 21st of the 12 months (%d arcs)' % len(want),
+                'observed': '%d arcs' % len(arcs), 'sig': dict(sig, what='monthly3d')}
+    pls = sp.monthly_day_polyline2d(proj, P2, radius, dto, dep, div)
+    want = [x for x in (sp.day_polyline2d(m, 21, proj, P2, radius, dto, dep, div) for m in range(1, 13)) if x is not None]
+    if [_v2(x) for x in pls] != [_v2(x) for x in want]:
+        return {'required': 'monthly_day_polyline2d = the day polylines of the 21st of the 12 months (%d)' % len(want),
+                'observed': '%d polylines' % len(pls), 'sig': dict(sig, what='monthly2d')}
+    # -- hourly analemmas
+    full = sp.hourly_analemma_suns(False, solar, sm, em, steps)
+    if min(len(l) for l in full) >= 3:
+        closed = sm == 1 and em == 12
+        _COUNT('branch:hpoly_' + ('closed' if closed else 'open'))
+        pls = sp.hourly_analemma_polyline3d(P3, radius, False, solar, sm, em, steps)
+        want = [[_pos(x, o3, radius) for x in l] for l in full]
+        if closed:
+            want = [w + w[:1] for w in want]
+        got = [_v3(x) for x in pls]
+        if len(got) != 24 or any(len(a) != len(b) or any(not _close(u, v, tol) for u, v in zip(a, b))
+                                 for a, b in zip(got, want)):
+            return {'required': '24 polylines through the suns of hourly_analemma_suns(False, %r, %d, %d, %d) about %r '
+                    'radius %r' % (solar, sm, em, steps, o3, radius), 'observed': '%d polylines, first %r'
+                    % (len(got), got[0][:1] if got else None), 'sig': dict(sig, what='hpoly3d')}
+        day = sp.hourly_analemma_polyline3d(P3, radius, True, solar, sm, em, steps)
+        verts = [v for x in day for v in _v3(x)]
+        sun_pts = set(tuple(round(t / tol) for t in q) for w in want for q in w)
+
+        def is_sun(v):
+            k = [round(t / tol) for t in v]
+            return any((k[0] + a, k[1] + b, k[2] + cc) in sun_pts for a in (-1, 0, 1) for b in (-1, 0, 1) for cc in (-1, 0, 1))
+
+        for v in verts:
+            on_plane = abs(v[2] - o3[2]) <= tol
+            if v[2] < o3[2] - tol or not (on_plane or is_sun(v)):
+                return {'required': 'daytime analemma vertices are suns above the plane z = %r or points on it' % o3[2],
+                        'observed': v, 'sig': dict(sig, what='hpoly3d-day')}
+        for hr, w in enumerate(want):
+            zs = [q[2] - o3[2] for q in w]
+            _COUNT('branch:hpoly_day_' + ('above' if min(zs) > 0 else 'below' if max(zs) < 0 else 'split'))
+        for dt_only in (dto,):
+            p2 = sp.hourly_analemma_polyline2d(proj, P2, radius, dt_only, solar, sm, em, steps)
+            p3 = sp.hourly_analemma_polyline3d(Point3D(*o2), radius, dt_only, solar, sm, em, steps)
+            want2 = [[_proj(v, proj, radius, o2) for v in _v3(x)] for x in p3]
+            got2 = [_v2(x) for x in p2]
+            if len(got2) != len(want2) or any(len(a) != len(b) or any(not _close(u, v, tol) for u, v in zip(a, b))
+                                               for a, b in zip(got2, want2)):
+                return {'required': 'hourly_analemma_polyline2d(%s, daytime_only=%r, is_solar_time=%r, %d..%d, %d steps) = '
+                        'the projection of hourly_analemma_polyline3d with the same arguments (%d polylines)'
+                        % (proj, dt_only, solar, sm, em, steps, len(want2)),
+                        'observed': '%d polylines, first %r' % (len(got2), got2[0][:1] if got2 else None),
+                        'sig': dict(sig, what='hpoly2d')}
+    return None
+
+
+# ---------------------------------------------------------------------------------------------
+# round 4 (kind f): results are the caller's own.  Editing a returned container, asking another question, asking
+# a second Sunpath, attaching data to a returned Sun: none of it may change an earlier or a later answer.
+
+_TOKEN = [0]
+
+
+def _scramble(x):
+    """Edit a returned container in place (dictionary, list, list of lists)."""
+    _TOKEN[0] += 1
+    if isinstance(x, dict):
+        for k in list(x):
+            x[k] = ('edited', _TOKEN[0])
+        x['extra'] = _TOKEN[0]
+    elif isinstance(x, list):
+        for e in x:
+            if isinstance(e, list):
+                _scramble(e)
+            elif hasattr(e, 'data'):
+                try:
+                    e.data = {'edited': _TOKEN[0]}
+                except Exception:
+                    pass
+        x.reverse()
+        x.append(('edited', _TOKEN[0]))
+        if len(x) > 2:
+            del x[0]
+
+
+def _show_any(x):
+    if isinstance(x, dict):
+        return 'dict ' + ' '.join('%s=%s' % (k, _show_odt(x[k]) if x[k] is None or hasattr(x[k], 'month') else repr(x[k]))
+                                  for k in sorted(x))
+    if isinstance(x, list):
+        return '[' + ', '.join(_show_any(e) for e in x) + ']'
+    if hasattr(x, 'sun_vector_reversed'):
+        return _show_sun(x) + ' data=%r' % (x.data,)
+    if hasattr(x, 'p1') and hasattr(x, 'c'):
+        return _arc_digest(x)
+    if hasattr(x, 'vertices'):
+        return repr([tuple(v.to_array()) for v in x.vertices])
+    return repr(x)
+
+
+def _check_alias(inp):
+    from ladybug.dt import Time
+    c, p = _cfg_of(inp), _per_of(inp)
+    sp = _sunpath(c, p)
+    c2 = (-c[0] * 0.5 + 3.0, c[1], c[2], 30.0, c[4])
+    other = _sunpath(c2, None if p is not None else (3, 8, 2, 11, 1, 2, c2[4]))
+    month, day, dep = inp['month'], inp['day'], inp['dep']
+    m2, d2, dep2 = (month % 12) + 1, min(day, 28), (6.0 if dep != 6.0 else 0.5334)
+    solar, daytime = bool(inp.get('solar')), bool(inp.get('daytime_only'))
+    sm, em, steps, hour, minute = inp['start'], inp['end'], inp['steps'], inp['hour'], inp['minute']
+    calls = [
+        ('calculate_sunrise_sunset', lambda o, v: o.calculate_sunrise_sunset(m2 if v else month, d2 if v else day,
+                                                                           dep2 if v else dep, solar)),
+        ('analemma_suns', lambda o, v: o.analemma_suns(Time((hour + 5) % 24 if v else hour, minute), daytime, solar,
+                                                       sm, em, steps)),
+        ('hourly_analemma_suns', lambda o, v: o.hourly_analemma_suns(daytime, not solar if v else solar, sm, em, steps)),
+        ('monthly_day_arc3d', lambda o, v: o.monthly_day_arc3d(depression=dep2 if v else dep, daytime_only=not daytime)),
+        ('hourly_analemma_polyline3d', lambda o, v: o.hourly_analemma_polyline3d(
+            daytime_only=daytime, is_solar_time=solar, start_month=1, end_month=12 if not v else 6)),
+        ('monthly_day_polyline2d', lambda o, v: o.monthly_day_polyline2d('Stereographic' if v else 'Orthographic',
+                                                                         depression=dep)),
+    ]
+    for name, call, in calls:
+        sig = {'what': 'aliasing', 'call': name}
+        try:
+            a = call(sp, False)
+            sa = _show_any(a)
+            b = call(sp, True)          # another question to the same object
+            x = call(other, False)      # the same question to a second object
+            sb = _show_any(b)
+            _scramble(x)
+            if _show_any(a) != sa or _show_any(b) != sb:
+                return {'required': '%s: a result is not changed by editing the result of a second Sunpath: %s'
+                        % (name, sa[:200]), 'observed': _show_any(a)[:200], 'sig': dict(sig, how='other-object')}
+            _scramble(b)
+            if _show_any(a) != sa:
+                return {'required': '%s: a result is not changed by editing the result of a later call: %s'
+                        % (name, sa[:200]), 'observed': _show_any(a)[:200], 'sig': dict(sig, how='later-result')}
+            _scramble(a)
+            a2, b2 = call(sp, False), call(sp, True)
+            if _show_any(a2) != sa or _show_any(b2) != sb:
+                return {'required': '%s: the same question has the same answer after the caller edited earlier '
+                        'results in place: %s' % (name, sa[:200]),
+                        'observed': (_show_any(a2) if _show_any(a2) != sa else _show_any(b2))[:200],
+                        'sig': dict(sig, how='edited-result')}
+        except (ValueError, AssertionError) as e:
+            if 'colinear' in str(e) or 'at least 3 vertices' in str(e):
+                continue
+            return {'required': name + ' answers', 'observed': 'raises %s: %s' % (type(e).__name__, str(e)[:100]),
+                    'sig': dict(sig, how='exception')}
+    # a Sun is the caller's own as well
+    s1 = sp.calculate_sun(month, day, hour, solar)
+    t1 = _sun_tuple(s1)
+    s1.data = {'note': _TOKEN[0]}
+    s2 = sp.calculate_sun(month, day, hour, solar)
+    if s2.data is not None or _sun_tuple(s2) != t1 or _sun_tuple(s1) != t1:
+        return {'required': 'a new Sun without data, equal to the first: %r' % (t1,), 'observed': (_sun_tuple(s2), s2.data),
+                'sig': {'what': 'aliasing', 'call': 'calculate_sun', 'how': 'sun-data'}}
+    return None
+
+
+# ---------------------------------------------------------------------------------------------
 # histories on ONE Sunpath object (round 3)
 #
 # A history is {'init': {lat, lon, tz, north, leap, period}, 'ops': [[name, args...], ...]} (JSON-able).  It is
@@ -1119,6 +1665,29 @@ SETTERS = ('slat', 'slon', 'snorth', 'stz', 'sleap', 'sper')
 UNMODELLED = ('poly2d', 'monthly2d', 'monthly3d', 'hpoly3d', 'hpoly2d')
 _BAD_ARG = {'bad:value': 'abc', 'bad:type': None}
 RANGES = {'slat': (-90.0, 90.0), 'slon': (-180.0, 180.0), 'snorth': (-360.0, 360.0), 'stz': (-12.0, 14.0)}
+
+
+VSHAPES = ('str', 'exp', 'pad', 'int', 'frac', 'dec', 'float')
+
+
+def _shape(v, shape):
+    """The number v as text / another numeric type that `float()` turns back into exactly v (kind i)."""
+    v = float(v)
+    if shape == 'str':
+        return repr(v)
+    if shape == 'exp':
+        return '%.17e' % v
+    if shape == 'pad':
+        return '  %r\t\n' % v
+    if shape == 'int' and v == int(v):
+        return int(v)
+    if shape == 'frac':
+        from fractions import Fraction
+        return Fraction(v)
+    if shape == 'dec':
+        from decimal import Decimal
+        return Decimal(repr(v))
+    return v
 
 
 def _num_tok(v):
@@ -1185,6 +1754,8 @@ def _apply(sp, op):
             v = _BAD_ARG[op[1]] if isinstance(op[1], str) else op[1]
             if k == 'stz' and isinstance(op[1], str):
                 v = 'abc' if op[1] == 'bad:value' else [1]
+            if len(op) > 2 and v is not None and not isinstance(op[1], str):
+                v = _shape(v, op[2])
             setattr(sp, {'slat': 'latitude', 'slon': 'longitude', 'snorth': 'north_angle', 'stz': 'time_zone'}[k], v)
             return 'ok'
         if k == 'sleap':
@@ -1194,9 +1765,10 @@ def _apply(sp, op):
             sp.daylight_saving_period = (3, 8, 2, 11, 1, 2) if op[1] == 'bad' else _period(op[1])
             return 'ok'
         if k == 'dst':
-            return 'ok ' + _b(sp.is_daylight_saving_hour(DateTime(op[2], op[3], op[4], op[5], op[1])))
+            return 'ok ' + _b(sp.is_daylight_saving_hour(_dt(op[2], op[3], op[4], op[5], op[1])))
         if k == 'sun':
-            return 'ok ' + _show_sun(sp.calculate_sun_from_date_time(DateTime(op[3], op[4], op[5], op[6], op[2]), op[1]))
+            mk = _native if (len(op) > 7 and sp.daylight_saving_period is None) else _dt
+            return 'ok ' + _show_sun(sp.calculate_sun_from_date_time(mk(op[3], op[4], op[5], op[6], op[2]), op[1]))
         if k == 'csun':
             return 'ok ' + _show_sun(sp.calculate_sun(op[2], op[3], op[4], op[1]))
         if k == 'smoy':
@@ -1204,8 +1776,9 @@ def _apply(sp, op):
         if k == 'shoy':
             return 'ok ' + _show_sun(sp.calculate_sun_from_hoy(op[2], op[1]))
         if k == 'riseset':
+            mk = _native if (len(op) > 8 and sp.daylight_saving_period is None) else _dt
             return _show_rs(sp.calculate_sunrise_sunset_from_datetime(
-                DateTime(op[4], op[5], op[6], op[7], op[3]), op[2], op[1]))
+                mk(op[4], op[5], op[6], op[7], op[3]), op[2], op[1]))
         if k == 'risesetmd':
             return _show_rs(sp.calculate_sunrise_sunset(op[3], op[4], op[2], op[1]))
         if k == 'analemma':
@@ -1259,9 +1832,8 @@ def _est_update(est, op):
             bool(op[1]) if k == 'sleap' else float(op[1])
 
 
-def _build(est):
-    from ladybug.sunpath import Sunpath
-    sp = Sunpath(est['lat'], est['lon'], est['tz'], est['north'], _period(est['period']))
+def _build(est, sform='ctor'):
+    sp = _make_sunpath(est['lat'], est['lon'], est['tz'], est['north'], _period(est['period']), sform)
     sp.is_leap_year = est['leap']
     return sp
 
@@ -1283,7 +1855,7 @@ def _refusal_kind(op):
 
 def _hist_outs(h):
     """The answers of the real object, one per op that is not a `check`."""
-    sp = _build(_est_of(h['init']))
+    sp = _build(_est_of(h['init']), h['init'].get('sform', 'ctor'))
     return [_apply(sp, op) for op in h['ops'] if op[0] != 'check']
 
 
@@ -1297,11 +1869,13 @@ def _history_check(sp, est, op):
     p = est['period']
     if p is not None and bool(p[6]) != bool(est['leap']):
         return 'skipped'            # the two calendars differ: the window is not defined by the statement
-    if name in ('riseset', 'dayarc') and not _in_domain(est):
+    if name in ('riseset', 'dayarc', 'geometry') and not _in_domain(est):
         return 'skipped'
     inp = dict(params, lat=est['lat'], lon=est['lon'], tz=est['tz'], north=est['north'], leap=est['leap'])
     if p is not None:
         inp['period'] = list(p[:6])
+        if len(p) > 7:
+            inp['pform'] = p[7]
     return CHECKS[name](inp, sp=sp)
 
 
@@ -1329,7 +1903,7 @@ def _check_history(inp):
     used object."""
     est = _est_of(inp['init'])
     try:
-        sp = _build(est)
+        sp = _build(est, inp['init'].get('sform', 'ctor'))
     except Exception as e:
         return {'required': 'Sunpath(%r)' % (inp['init'],), 'observed': 'raises %s' % type(e).__name__,
                 'sig': {'what': 'construct'}}
@@ -1450,16 +2024,19 @@ def _gen_read(rng, est, hot):
     if r < 0.16:
         return ['dst', dl, t.month, t.day, t.hour, t.minute]
     if r < 0.34:
-        return ['sun', solar, dl, t.month, t.day, t.hour, t.minute]
+        return ['sun', solar, dl, t.month, t.day, t.hour, t.minute] + (['native'] if rng.random() < 0.3 else [])
     if r < 0.44:
         tt = _ref(leap, _gen_time(rng, est, hot, leap))
-        return ['csun', solar, tt.month, tt.day, float(tt.hour) if rng.random() < 0.6 else tt.hour + tt.minute / 60.0]
+        rr = rng.random()
+        hr = float(tt.hour) if rr < 0.5 else tt.hour + tt.minute / 60.0 if rr < 0.8 else \
+            tt.hour + (tt.minute + rng.choice([0.5, 0.49, 0.51, 1e-9, -1e-9, 0.999999])) / 60.0
+        return ['csun', solar, tt.month, tt.day, tt.hour if rr < 0.1 else hr]
     if r < 0.50:
         return ['smoy', solar, _gen_time(rng, est, hot, leap)]
     if r < 0.55:
         return ['shoy', solar, _gen_time(rng, est, hot, leap) // 60]
     if r < 0.63:
-        return ['riseset', solar, dep, dl, t.month, t.day, t.hour, t.minute]
+        return ['riseset', solar, dep, dl, t.month, t.day, t.hour, t.minute] + (['native'] if rng.random() < 0.3 else [])
     if r < 0.78:
         tt = _ref(leap, _gen_time(rng, est, hot, leap))
         md = (tt.month, tt.day) if rng.random() < 0.6 else _rand_day(rng, leap)
@@ -1551,10 +2128,10 @@ def _gen_setter(rng, est):
         pl = leap if rng.random() < 0.85 else not leap
         return [['sper', list(_rand_period(rng, pl))]]
     if r < 0.7:
-        return [['slat', rng.choice(LATS) if rng.random() < 0.5 else rng.uniform(-90.0, 90.0)]]
+        return [_shaped(rng, ['slat', rng.choice(LATS) if rng.random() < 0.5 else rng.uniform(-90.0, 90.0)])]
     if r < 0.82:
         lon = max(-180.0, min(180.0, est['lon'] + rng.uniform(-25.0, 25.0))) if rng.random() < 0.7 else rng.choice(LONS)
-        ops = [['slon', lon]]
+        ops = [_shaped(rng, ['slon', lon])]
         if abs(est['tz'] - lon / 15.0) > 1.9 or rng.random() < 0.3:
             ops.append(['stz', None if rng.random() < 0.5 else float(max(-12, min(14, round(lon / 15.0))))])
         return ops
@@ -1562,8 +2139,15 @@ def _gen_setter(rng, est):
         base = est['lon'] / 15.0
         tz = rng.choice([None, float(max(-12, min(14, round(base)))), max(-12.0, min(14.0, base + rng.uniform(-1.5, 1.5))),
                          max(-12.0, min(14.0, float(round(base) + rng.choice([-1, 1]))))])
-        return [['stz', tz]]
-    return [['snorth', rng.choice([0.0, 0.0, 90.0, -45.5, 360.0, -360.0, rng.uniform(-360.0, 360.0)])]]
+        return [_shaped(rng, ['stz', tz])]
+    return [_shaped(rng, ['snorth', rng.choice([0.0, 0.0, 90.0, -45.5, 360.0, -360.0, rng.uniform(-360.0, 360.0)])])]
+
+
+def _shaped(rng, op):
+    """A setter value as text or as another numeric type, in a third of the cases."""
+    if op[1] is not None and rng.random() < 0.35:
+        return op + [rng.choice(VSHAPES)]
+    return op
 
 
 def _gen_refused_setter(rng, est):
@@ -1578,7 +2162,7 @@ def _gen_refused_setter(rng, est):
     # fixes/C11_setters_validate_first.patch the refusal stands alone and the next reads judge it.
     cur = {'slat': est['lat'], 'slon': est['lon'], 'snorth': est['north'], 'stz': est['tz']}[k]
     if _setters_fixed():
-        return [[k, rng.choice(OUT_OF_RANGE[k])]]
+        return [_shaped(rng, [k, rng.choice(OUT_OF_RANGE[k])])]
     return [[k, rng.choice(OUT_OF_RANGE[k])], [k, cur]]
 
 
@@ -1617,6 +2201,14 @@ def _gen_check(rng, est, hot):
     if r < 0.9:
         t = _ref(leap, _gen_time(rng, est, hot, leap))
         return ['check', 'dayarc', {'month': t.month, 'day': t.day, 'dep': rng.choice(DEPS), 'daytime_only': rng.random() < 0.6}]
+    if r < 0.93:
+        t = _ref(leap, _gen_time(rng, est, hot, leap))
+        sm = rng.randrange(1, 10)
+        return ['check', 'geometry', {'month': t.month, 'day': t.day, 'dep': rng.choice(DEPS), 'daytime_only': rng.random() < 0.5,
+                                      'solar': rng.random() < 0.3, 'origin': [rng.choice([0.0, 5.0]), 7.0, rng.choice([0.0, -4.0])],
+                                      'radius': rng.choice([100, 2.5]), 'divisions': rng.choice([10, 3]),
+                                      'projection': rng.choice(['Orthographic', 'stereographic']),
+                                      'start': sm, 'end': sm + 3, 'steps': 1}]
     sm = rng.randrange(1, 12)
     return ['check', 'analemma', {'start': sm, 'end': min(12, sm + 2), 'steps': rng.choice([1, 2, 4]), 'hour': rng.randrange(24),
                                   'minute': rng.choice([0, 30]), 'daytime_only': rng.random() < 0.4,
@@ -1641,6 +2233,11 @@ def _gen_history(rng, count=None, nops=None):
     period = list(_rand_period(rng, leap if rng.random() < 0.9 else not leap)) if rng.random() < 0.75 else None
     init = {'lat': lat, 'lon': lon, 'tz': tz, 'north': rng.choice([0.0, 0.0, 0.0, 30.0, -90.0]), 'leap': leap,
             'period': period}
+    if rng.random() < 0.4:
+        init['sform'] = rng.choice(SFORMS[1:7])
+        cnt('history:init_made_by_' + init['sform'])
+    if period is not None and len(period) > 7:
+        cnt('history:period_form_' + period[7])
     est = _est_of(init)
     hot, pool, ops = [], [], []
     cnt('history:init_' + ('leap' if leap else 'nonleap'))
@@ -1686,6 +2283,10 @@ def _gen_history(rng, count=None, nops=None):
             seq = _gen_setter(rng, est)
             for op in seq:
                 cnt('history:set_' + op[0])
+                if len(op) > 2:
+                    cnt('history:set_shape_' + op[2])
+                if op[0] == 'sper' and op[1] is not None and len(op[1]) > 7:
+                    cnt('history:period_form_' + op[1][7])
                 if op[0] == 'sleap':
                     cnt('history:switch_' + ('to_leap' if op[1] else 'to_nonleap'))
                 _est_update(est, op)
@@ -1780,7 +2381,7 @@ def _observe(op, inp):
     if op == 'analemma':
         return _apply(sp, ['analemma', solar, bool(inp.get('daytime_only')), inp['start'], inp['end'], inp['steps'],
                            inp['hour'], inp['minute']])
-    if op == 'dayarc':
+    if op in ('dayarc', 'geometry', 'alias'):
         return _digest(_apply(sp, ['dayarc', inp['dep'], bool(inp.get('daytime_only', True)), inp['month'], inp['day']]))
     raise ValueError('unknown op ' + op)
 
@@ -1987,7 +2588,7 @@ def _COUNT(key):
         _SUBCTX[0].count(key)
 
 
-CHECKS = {'dst_window': _check_dst_window, 'dst_shift': _check_dst_shift, 'riseset': _check_riseset,
+CHECKS = {'geometry': _check_geometry, 'alias': _check_alias, 'dst_window': _check_dst_window, 'dst_shift': _check_dst_shift, 'riseset': _check_riseset,
           'riseset_dt': _check_riseset_dt, 'analemma': _check_analemma, 'dayarc': _check_dayarc,
           'history': _check_history, 'order': _check_order}
 
@@ -2032,6 +2633,26 @@ CORPUS = [
     ('dayarc', {'lat': 65.63, 'lon': -16.12, 'tz': -2.0, 'leap': False, 'month': 6, 'day': 21, 'dep': 0.5334}),
     ('dayarc', {'lat': 78.0, 'lon': 15.0, 'tz': 1.0, 'leap': False, 'month': 6, 'day': 21, 'dep': 0.5334}),
     ('dayarc', dict(NYC, period=[3, 8, 2, 11, 1, 2], month=6, day=21, dep=0.5334)),
+    # --- round 4: the daylight-saving period handed over as text / strings / a dictionary (one- and two-digit
+    # fields mixed: '10' < '4' as text), every hour of the year
+    ('dst_window', {'leap': False, 'period': [10, 4, 2, 4, 5, 3], 'pform': 'text', 'moys': list(range(0, 525600, 60))}),
+    ('dst_window', {'leap': False, 'period': [3, 8, 2, 11, 1, 2], 'pform': 'repr', 'moys': list(range(0, 525600, 60))}),
+    ('dst_window', {'leap': True, 'period': [9, 24, 10, 4, 2, 3], 'pform': 'str', 'moys': list(range(30, 527040, 180))}),
+    ('dst_window', {'leap': False, 'period': [1, 1, 0, 12, 31, 23], 'pform': 'falsy', 'moys': list(range(0, 525600, 600))}),
+    ('dst_window', {'leap': True, 'period': [11, 30, 2, 2, 29, 3], 'pform': 'clip', 'moys': list(range(0, 527040, 180))}),
+    ('dst_shift', {'lat': -33.87, 'lon': 151.22, 'tz': 10.0, 'leap': False, 'period': [10, 4, 2, 4, 5, 3], 'pform': 'unicode',
+                   'moys': [0, 59, 60, 720, 525599, 246240, 136979, 136980, 397559, 397560]}),
+    ('riseset', dict(NYC, period=[3, 8, 2, 11, 1, 2], pform='padded', month=6, day=21, dep=0.5334)),
+    ('riseset', {'lat': -33.87, 'lon': 151.22, 'tz': 10.0, 'leap': False, 'period': [10, 4, 2, 4, 5, 3], 'pform': 'dict_sparse',
+                 'month': 12, 'day': 21, 'dep': 0.8333}),
+    # geometry consumers with every argument off its default; results are the caller's own
+    ('geometry', dict(NYC, north=30.0, dep=6.0, daytime_only=False, solar=True, origin=[5.0, 7.0, 3.0], radius=50.0,
+                      divisions=7, projection='stereographic', start=1, end=12, steps=1, month=6, day=21)),
+    ('geometry', {'lat': 78.0, 'lon': 15.0, 'tz': 1.0, 'leap': False, 'north': 0.0, 'dep': 0.5334, 'daytime_only': True,
+                  'origin': [0.0, 250.0, -40.0], 'radius': 2.5, 'divisions': 3, 'projection': 'ORTHOGRAPHIC', 'start': 3,
+                  'end': 9, 'steps': 2, 'month': 12, 'day': 21}),
+    ('alias', dict(NYC, period=[3, 8, 2, 11, 1, 2], pform='text', dep=0.5334, start=3, end=9, steps=1, hour=9, minute=0,
+                   month=6, day=21)),
     # --- histories on one object
     # a period given in the leap calendar, the object used for a normal year first, then switched
     ('history', {'init': {'lat': -33.87, 'lon': 151.22, 'tz': 10.0, 'north': 0.0, 'leap': False,
@@ -2125,6 +2746,8 @@ def _oracle_cases(ctx, corpus=True, counting=True):
             cnt('oracle_rare:year_end_or_leap_day')
         if rng.random() < 0.35:
             inp['period'] = list(rng.choice(PERIODS[:6] if rng.random() < 0.8 else PERIODS))
+            inp['pform'] = _form_for(rng, inp['period'], leap)
+            cnt('oracle_pform:' + inp['pform'])
         if rng.random() < 0.15:
             inp['solar'] = True
         cnt('oracle_cfg:lat_' + ('polar' if abs(lat) > 66.56 else 'subpolar' if abs(lat) > 55 else 'mid_low'))
@@ -2143,11 +2766,18 @@ def _oracle_cases(ctx, corpus=True, counting=True):
                 moys = list(range(0, n, 60)) + _dst_boundary_moys(pp, leap)
             cnt('oracle_dst_period:' + _kind(pp))
             yield 'dst_window', {'leap': leap, 'period': list(pp), 'moys': moys}
+            # the same period handed over as text / strings / dictionary / ... (round 4)
+            for form in (rng.sample(PFORMS[1:], 2) if ctx.quick and not ctx.searching else PFORMS[1:]):
+                cnt('oracle_pform:' + form)
+                yield 'dst_window', {'leap': leap, 'period': list(pp), 'pform': form,
+                                     'moys': _dst_boundary_moys(pp, leap) + [rng.randrange(n) for _ in range(60)]}
     for _ in range(ctx.n(6, 60)):
         leap = rng.random() < 0.5
-        pp = _rand_period(rng, leap)[:6]
+        pp = _rand_period(rng, leap)
+        pform, pp = pp[7], pp[:6]
         n = _ymin(leap)
-        yield 'dst_window', {'leap': leap, 'period': list(pp),
+        cnt('oracle_pform:' + pform)
+        yield 'dst_window', {'leap': leap, 'period': list(pp), 'pform': pform,
                              'moys': list(range(rng.randrange(180), n, 180)) + _dst_boundary_moys(pp, leap)}
     # the shift
     for _ in range(ctx.n(120, 1500) * mult):
@@ -2158,7 +2788,7 @@ def _oracle_cases(ctx, corpus=True, counting=True):
         moys = [rng.randrange(n) for _ in range(12)] + rng.sample(_dst_boundary_moys(pp, leap), 6) + \
                [rng.randrange(_ydays(leap)) * 1440 + rng.randrange(60) for _ in range(3)]
         yield 'dst_shift', {'lat': lat, 'lon': lon, 'tz': _oracle_tz(rng, lon), 'leap': leap, 'period': list(pp),
-                            'moys': moys, 'solar': rng.random() < 0.2}
+                            'pform': _form_for(rng, pp, leap), 'moys': moys, 'solar': rng.random() < 0.2}
     # derived suns
     for i in range(ctx.n(40, 500) * mult):
         lat, lon = rng.uniform(-89.0, 89.0), rng.uniform(-180.0, 180.0)
@@ -2169,6 +2799,7 @@ def _oracle_cases(ctx, corpus=True, counting=True):
                'solar': rng.random() < 0.2, 'hourly': i % 8 == 0}
         if rng.random() < 0.4:
             inp['period'] = list(rng.choice(PERIODS))
+            inp['pform'] = _form_for(rng, inp['period'], inp['leap'])
         yield 'analemma', inp
     for _ in range(ctx.n(150, 2000) * mult):
         lat = rng.choice(LATS[1:-1]) if rng.random() < 0.4 else rng.uniform(-89.0, 89.0)
@@ -2179,7 +2810,41 @@ def _oracle_cases(ctx, corpus=True, counting=True):
         inp['month'], inp['day'] = _rand_day(rng, leap)
         if rng.random() < 0.3:
             inp['period'] = list(rng.choice(PERIODS[:6]))
+            inp['pform'] = _form_for(rng, inp['period'], leap)
         yield 'dayarc', inp
+    # geometry consumers with every argument off its default (round 4, kind g)
+    for _ in range(ctx.n(30, 300) * mult):
+        lat = rng.choice([-78.0, -66.5622, 67.5, 71.0, 78.0]) if rng.random() < 0.3 else rng.uniform(-85.0, 85.0)
+        lon = rng.uniform(-180.0, 180.0)
+        leap = rng.random() < 0.3
+        sm = rng.choice([1, 1, rng.randrange(1, 11)])
+        em = 12 if (sm == 1 and rng.random() < 0.6) else rng.randrange(sm + 2, 13)
+        inp = {'lat': lat, 'lon': lon, 'tz': _oracle_tz(rng, lon), 'leap': leap, 'north': rng.choice([0.0, 0.0, 30.0, -90.0]),
+               'dep': rng.choice(DEPS + [0, 3.0]), 'daytime_only': rng.random() < 0.5, 'solar': rng.random() < 0.4,
+               'origin': [rng.choice([0.0, 5.0, -12.5]), rng.choice([0.0, 7.0, 250.0]), rng.choice([0.0, 3.0, -40.0])],
+               'radius': rng.choice([100, 1.0, 50.0, 0.25, 3000.0]), 'divisions': rng.choice([10, 2, 3, 7, 24]),
+               'projection': rng.choice(['Orthographic', 'Stereographic', 'orthographic', 'STEREOGRAPHIC', 'stereoGraphic']),
+               'start': sm, 'end': em, 'steps': rng.choice([1, 1, 2, 3])}
+        inp['month'], inp['day'] = _rand_day(rng, leap)
+        if rng.random() < 0.3:
+            inp['period'] = list(rng.choice(PERIODS[:6]))
+            inp['pform'] = _form_for(rng, inp['period'], leap)
+        cnt('oracle_geometry:' + inp['projection'].lower())
+        yield 'geometry', inp
+    # results are the caller's own (round 4, kind f)
+    for _ in range(ctx.n(25, 250) * mult):
+        lat, lon = rng.uniform(-80.0, 80.0), rng.uniform(-180.0, 180.0)
+        leap = rng.random() < 0.3
+        sm = rng.randrange(1, 10)
+        inp = {'lat': lat, 'lon': lon, 'tz': _oracle_tz(rng, lon), 'leap': leap, 'dep': rng.choice(DEPS),
+               'start': sm, 'end': rng.randrange(sm + 2, 13), 'steps': rng.choice([1, 1, 2]), 'hour': rng.randrange(24),
+               'minute': rng.choice([0, 30]), 'daytime_only': rng.random() < 0.4, 'solar': rng.random() < 0.3}
+        inp['month'], inp['day'] = _rand_day(rng, leap)
+        if rng.random() < 0.4:
+            inp['period'] = list(rng.choice(PERIODS[:6]))
+            inp['pform'] = _form_for(rng, inp['period'], leap)
+        cnt('oracle_alias')
+        yield 'alias', inp
 
 
 def oracle(ctx):
